@@ -308,8 +308,9 @@ Section MQ.
     rewrite (emit_dg_msgs cx h ms Hc Ht d Hd), Hms, map_stamp_wmsg. apply in_map. exact Hm.
   Qed.
 
-  Hypothesis Q_sys : forall c ty p k, ty <> UNKNOWN -> sys_icb k -> Qm (new_msg c ty p RNone k).
-  Hypothesis Q_frag : forall c fid idx p r, Qm (new_msg c APP_FRAGMENT p r (IFrag fid idx)).
+  Hypothesis Q_sys : forall c ty p k, is_hs ty = true -> sys_icb k -> Qm (new_msg c ty p RNone k).
+  Hypothesis Q_frag : forall c fid i n f r,
+    Qm (new_msg c APP_FRAGMENT (be 2 fid ++ be 2 (1 + i) ++ be 2 n ++ f) r (IFrag fid i)).
 
   Lemma recv_msgs_MI ms c now orcs c' o : MI c -> recv_msgs c now ms orcs = (c', o) -> MI c'.
   Proof.
@@ -324,11 +325,11 @@ Section MQ.
       destruct ty, (c_server a); try (injection Eh as <- <-; exact HN).
       + destruct (negb _); [injection Eh as <- <-; exact HN|].
         destruct (negb _); injection Eh as <- <-; [exact HN|].
-        apply send_type_MI; [apply Q_sys; [discriminate|exact I]|]. eapply MI_upd; [| | |exact HN]; reflexivity.
+        apply send_type_MI; [apply Q_sys; [reflexivity|exact I]|]. eapply MI_upd; [| | |exact HN]; reflexivity.
       + destruct (o_parse oo =? 6); [injection Eh as <- <-; eapply MI_upd; [| | |exact HN]; reflexivity|].
         destruct (negb _); injection Eh as <- <-; [exact HN|].
         eapply MI_upd; [| | |apply (send_type_MI (a <| c_token := o_token oo |> <| c_key := Some (o_key oo) |>) CHALLENGE_RESP (o_reply oo) RNone IChallenge);
-                             [apply Q_sys; [discriminate|exact I]|eapply MI_upd; [| | |exact HN]; reflexivity]]; reflexivity.
+                             [apply Q_sys; [reflexivity|exact I]|eapply MI_upd; [| | |exact HN]; reflexivity]]; reflexivity.
       + destruct (negb _); [injection Eh as <- <-; exact HN|].
         destruct (o_temp_token oo) as [t|]; [|injection Eh as <- <-; exact HN].
         destruct (t =? o_token oo); injection Eh as <- <-; [eapply MI_upd; [| | |exact HN]; reflexivity|exact HN].
@@ -362,34 +363,33 @@ Section MQ.
 
   Theorem step_link e S Ka c n x c' o :
     ev_open x -> ev_new e c x -> MI c -> PK c -> AInv S Ka c n -> step e c x = (c', o) ->
-    MI c' /\ PK c' /\ Link c c' (flat_map dg_of o).
+    MI c' /\ PK c' /\ Link c c' (flat_map dg_of o) /\ WireQ (flat_map dg_of o).
   Proof.
     intros Hop Hnew HN HP HA E.
+    assert (Hfin : forall c1 o1, no_emit o1 -> MI c1 -> PK c1 -> psub c c1 ->
+                     MI c1 /\ PK c1 /\ Link c c1 (flat_map dg_of o1) /\ WireQ (flat_map dg_of o1)).
+    { intros c1 o1 Ne A B D. rewrite (no_emit_dg _ Ne). split; [exact A|]. split; [exact B|]. split; [apply Link_psub; exact D|intros d []]. }
     assert (Hsame : forall c1, c_outgoing c1 = c_outgoing c -> c_pretry_msg c1 = c_pretry_msg c -> c_pcbs c1 = c_pcbs c ->
                       c_packs c1 = c_packs c -> MI c1 /\ PK c1 /\ psub c c1).
     { intros c1 O Pm C A. split; [eapply MI_upd; eassumption|]. split; [eapply PK_upd; eassumption|apply psub_eq; exact C]. }
     destruct x; cbn [step] in E; cbn [ev_open ev_new] in *.
     - (* send *)
       pose proof (send_frame _ _ _ _ _ _ _ E) as [_ Ne]. pose proof (send_ack _ _ _ _ _ _ _ E) as [Pa _ _ _ _].
-      unfold send in E. destruct (negb _); [injection E as <- <-; split; [exact HN|split; [exact HP|apply Link_psub, psub_refl]]|].
+      unfold send in E. destruct (negb _); [injection E as <- <-; apply Hfin; [exact Ne|exact HN|exact HP|apply psub_refl]|].
       destruct (len p >? e_max_payload e) eqn:Eg.
       + destruct (len p >? e_max_frag e * e_max_frags e); injection E as <- <-.
-        * split; [eapply MI_upd; [| | |exact HN]; reflexivity|]. split; [eapply PK_upd; [| |exact HP]; reflexivity|].
-          apply Link_psub, psub_eq. reflexivity.
+        * apply Hfin; [exact Ne|eapply MI_upd; [| | |exact HN]; reflexivity|eapply PK_upd; [| |exact HP]; reflexivity|apply psub_eq; reflexivity].
         * set (frags := split_frags (Datatypes.S (length p)) e p) in *.
           set (c0 := c <| c_seq_frag := seq_succ (c_seq_frag c) |>) in *.
           assert (N0 : MI c0) by (eapply MI_upd; [| | |exact HN]; reflexivity).
           pose proof (send_frags_MI frags c0 (seq_succ (c_seq_frag c)) (len frags) r 0 N0) as N1.
           destruct (send_frags_fields frags c0 (seq_succ (c_seq_frag c)) (len frags) r 0) as [_ Hpc].
-          split; [eapply MI_upd; [| | |exact N1]; reflexivity|].
           assert (Hpc' : c_pcbs ((send_frags c0 (seq_succ (c_seq_frag c)) (len frags) r 0 frags)
                            <| c_pfrags := dset (seq_succ (c_seq_frag c)) {| fs_ucb := k; fs_acks := repeat None (length frags) |}
                                 (c_pfrags (send_frags c0 (seq_succ (c_seq_frag c)) (len frags) r 0 frags)) |>) = c_pcbs c) by exact Hpc.
-          split; [eapply PK_upd; [exact Hpc'|exact Pa|exact HP]|].
-          apply Link_psub, psub_eq. exact Hpc'.
+          apply Hfin; [exact Ne|eapply MI_upd; [| | |exact N1]; reflexivity|eapply PK_upd; [exact Hpc'|exact Pa|exact HP]|apply psub_eq; exact Hpc'].
       + injection E as <- <-.
-        split; [apply send_type_MI; [apply Hnew; lia|exact HN]|]. split; [eapply PK_upd; [| |exact HP]; reflexivity|].
-        apply Link_psub, psub_eq. reflexivity.
+        apply Hfin; [exact Ne|apply send_type_MI; [apply Hnew; lia|exact HN]|eapply PK_upd; [| |exact HP]; reflexivity|apply psub_eq; reflexivity].
     - unfold client_tick in E.
       destruct (client_update c now) as [c0 o0] eqn:E0.
       assert (H0 : (MI c0 /\ PK c0 /\ psub c c0) /\ AInv S Ka c0 n /\ no_emit o0 /\ c_seq_send c0 = c_seq_send c).
@@ -400,7 +400,7 @@ Section MQ.
         - destruct HA as [H0 Hp]. split; [eapply AInv0_same; eassumption|eapply purged_same; eassumption]. }
       destruct H0 as ((N0 & P0 & S0) & A0 & Ne0 & Q0).
       destruct (status_eqb (c_status c0) DROPPED).
-      { injection E as <- <-. split; [exact N0|]. split; [exact P0|]. apply Link_psub. exact S0. }
+      { injection E as <- <-. apply Hfin; assumption. }
       match type of E with context [match ?y with (_, _) => _ end] => destruct y as [c1 o1] eqn:E1 end.
       assert (H1 : (MI c1 /\ PK c1 /\ psub c c1) /\ AInv S Ka c1 n /\ no_emit o1 /\ c_seq_send c1 = c_seq_send c).
       { destruct r as [|er|d orcs].
@@ -413,38 +413,39 @@ Section MQ.
           pose proof (recv_frame _ _ _ _ _ _ Er) as [[_ Q _ _ _ _ _ _] Nr]. split; [auto with frame|congruence]. }
       destruct H1 as ((N1 & P1 & S1) & A1 & Ne1 & Q1).
       destruct (raised o1).
-      { injection E as <- <-. split; [exact N1|]. split; [exact P1|]. apply Link_psub. exact S1. }
+      { injection E as <- <-. apply Hfin; auto with frame. }
       destruct (_ >? _).
-      2:{ injection E as <- <-. split; [exact N1|]. split; [exact P1|]. apply Link_psub. exact S1. }
+      2:{ injection E as <- <-. apply Hfin; auto with frame. }
       destruct (build_packet e c1 now) as [c2 pk] eqn:E2.
       destruct (check_timeout false c2 now) as [c3 o3] eqn:E3. injection E as <- <-.
-      destruct (tick_tail_link _ _ _ _ _ _ _ _ _ _ _ N1 P1 A1 E2 E3) as (N3 & P3 & L3 & _).
+      destruct (tick_tail_link _ _ _ _ _ _ _ _ _ _ _ N1 P1 A1 E2 E3) as (N3 & P3 & L3 & W3).
       apply check_timeout_frame in E3 as [_ Ne3].
       split; [exact N3|]. split; [exact P3|].
       rewrite !flat_dg_app, (no_emit_dg _ Ne0), (no_emit_dg _ Ne1), (no_emit_dg _ Ne3). cbn [app]. rewrite app_nil_r.
+      split; [|apply W3].
       intros s ks Hs. destruct (L3 c2 s ks Hs) as [H|[H1 H2]]; [left; exact (S1 s ks H)|right].
       split; [congruence|exact H2].
-    - unfold server_tick in E. destruct (_ >? _); [|injection E as <- <-; split; [exact HN|split; [exact HP|apply Link_psub, psub_refl]]].
+    - unfold server_tick in E. destruct (_ >? _); [|injection E as <- <-; apply Hfin; [apply no_emit_nil|exact HN|exact HP|apply psub_refl]].
       destruct (build_packet e c now) as [c1 pk] eqn:E1.
       destruct (check_timeout true c1 now) as [c2 o2] eqn:E2. injection E as <- <-.
-      destruct (tick_tail_link _ _ _ _ _ _ _ _ _ _ _ HN HP HA E1 E2) as (N2 & P2 & L2 & _).
+      destruct (tick_tail_link _ _ _ _ _ _ _ _ _ _ _ HN HP HA E1 E2) as (N2 & P2 & L2 & W2).
       apply check_timeout_frame in E2 as [_ Ne2].
-      split; [exact N2|]. split; [exact P2|]. rewrite flat_dg_app, (no_emit_dg _ Ne2). cbn [app]. apply L2.
-    - destruct (recv_PK _ _ _ _ _ _ HP E) as [P1 S1].
-      split; [eapply recv_MI; eassumption|]. split; [exact P1|]. apply Link_psub. exact S1.
+      split; [exact N2|]. split; [exact P2|]. rewrite flat_dg_app, (no_emit_dg _ Ne2). cbn [app]. split; [apply L2|apply W2].
+    - destruct (recv_PK _ _ _ _ _ _ HP E) as [P1 S1]. pose proof (recv_frame _ _ _ _ _ _ E) as [_ Nr].
+      apply Hfin; [exact Nr|eapply recv_MI; eassumption|exact P1|exact S1].
     - destruct Hop.
     - injection E as <- <-.
       destruct (Hsame (match which with 0 => c <| c_ka_interval := v |> | 1 => c <| c_out_timeout := v |>
                                    | 2 => c <| c_temp_timeout := v |> | _ => c <| c_send_interval := v |> end))
         as (A & B & D); try (destruct which as [|[[q|q|]|[q|q|]|]|q]; reflexivity).
-      split; [exact A|]. split; [exact B|]. apply Link_psub. exact D.
-    - injection E as <- <-. unfold client_hello. split; [|split].
-      + eapply MI_upd; [| | |apply (send_type_MI c CLIENT_HELLO hello RNone IHello); [apply Q_sys; [discriminate|exact I]|exact HN]]; reflexivity.
+      apply Hfin; [apply no_emit_nil|exact A|exact B|exact D].
+    - injection E as <- <-. unfold client_hello. apply Hfin; [apply no_emit_nil| | |].
+      + eapply MI_upd; [| | |apply (send_type_MI c CLIENT_HELLO hello RNone IHello); [apply Q_sys; [reflexivity|exact I]|exact HN]]; reflexivity.
       + eapply PK_upd; [| |exact HP]; reflexivity.
-      + apply Link_psub, psub_eq. reflexivity.
+      + apply psub_eq. reflexivity.
     - injection E as <- <-. destruct (Hsame (c <| c_incoming := [] |>)) as (A & B & D); try reflexivity.
-      split; [exact A|]. split; [exact B|]. apply Link_psub. exact D.
+      apply Hfin; [apply no_emit_nil|exact A|exact B|exact D].
     - injection E as <- <-. destruct (Hsame (c <| c_conn_cb := b |>)) as (A & B & D); try reflexivity.
-      split; [exact A|]. split; [exact B|]. apply Link_psub. exact D.
+      apply Hfin; [apply no_emit_nil|exact A|exact B|exact D].
   Qed.
 End MQ.
